@@ -75,7 +75,7 @@ impl Property for C15 {
         "C15"
     }
     fn rule(&self) -> &'static str {
-        "case = (a) instance of either sense -> as_minimization_problem (twice) | (b) instance with removed constraints x 1..8 samples (ties, mixed feasibility) -> evaluate_samples -> best_feasible / best_feasible_unrelaxed | (c) hand-built SampleSet messages in the current encoding (feasible_relaxed + feasible) and in the 1.6 encoding (feasible = remaining constraints, deprecated feasible_unrelaxed = all, feasible_relaxed empty), passed through protobuf bytes; \
+        "case = (a) instance of either sense -> as_minimization_problem (twice) | (b) instance with removed constraints x 1..8 samples (ties, mixed feasibility) -> evaluate_samples -> best_feasible / best_feasible_unrelaxed | (c) hand-built SampleSet messages in the current encoding (feasible_relaxed + feasible) and in the 1.6 encoding (feasible = remaining constraints, deprecated feasible_unrelaxed = all, feasible_relaxed empty), passed through protobuf bytes, objectives one ulp apart and infinite; \
          oracle = exact negation / brute force arg-best over the sample table; non-trivial = >=3 samples with mixed feasibility and relaxed set != unrelaxed set, or a maximisation instance; distinct = sha256(case)"
     }
     fn required_labels(&self) -> Vec<String> {
